@@ -6,6 +6,7 @@ C16, closed mode — dataset validation as a closed Lean function (Model/ClosedD
 C01 string-validator model inside), concatenated sidecars first in discovery order, each issue labelled with its file.
 -/
 import HedVerif.Model.ClosedDataset
+import HedVerif.Model.ClosedDatasetRaw
 import HedVerif.Props.C16
 import HedVerif.Props.Closed
 
@@ -297,5 +298,126 @@ theorem two_subject_example_closed :
              ⟨C07.kindOf .noValidTag, 1, some 2, some colA, ['Z','z'], .cell 0 0⟩ ] := by
   decide +kernel
 end Example
+
+/-! ## RAW closed mode: the frame input disappears (`Model/ClosedDatasetRaw.lean`) -/
+
+/-- the per-file step of the raw dataset model is the raw closed file pipeline (C06 ∘ C07 ∘ C01) on the file's own
+cells and the model's merged sidecar (the empty sidecar if none applies) -/
+theorem raw_table_step (env : Validate.Env) (k : Raw.Consts) (tables : Path → Assemble.Table) (g : Group SJson)
+    (d : PFile SJson) :
+    tableClosed env k.kBanned (rawFrames k tables) g d =
+      Tabular.validateClosedRaw env k (toJs ((sidecarOf g d).getD [])) (tables d.path) := rfl
+
+/-- **dataset_closed_raw_is_union.**  For a well-formed group the dataset's issue list, computed from the tree alone,
+is the concatenation — participating sidecars first, then participating events files, in discovery order, each issue
+labelled with its file — of `SidecarV.validateClosed` on each sidecar's `mergeSpec` document and of
+`Tabular.validateClosedRaw` on each file's raw table with its `mergeSpec` sidecar (the empty sidecar if no sidecar
+applies). -/
+theorem dataset_closed_raw_is_union (env : Validate.Env) (k : Raw.Consts) (tables : Path → Assemble.Table)
+    (g : Group SJson) (hW : ∀ o ∈ g.sidecars ++ g.datafiles, WellFormed g o) (hobj : ∀ s ∈ g.sidecars, s.obj = true) :
+    validateGroupClosedRaw env k tables g =
+      seqE ((g.sidecars.map fun s =>
+              tagE (DIssue.sidecar s.path) (DExn.sidecar s.path)
+                (SidecarV.validateClosed env .fixed (.obj (mergeSpec g s)))) ++
+            (g.datafiles.map fun d =>
+              tagE (DIssue.table d.path) (DExn.table d.path)
+                (Tabular.validateClosedRaw env k (toJs ((specSidecar g d).getD [])) (tables d.path)))) := by
+  unfold validateGroupClosedRaw
+  rw [dataset_closed_is_union env k.kBanned (rawFrames k tables) g hW hobj]
+  rfl
+
+/-- the same for a whole dataset tree with one tabular type -/
+theorem dataset_closed_raw_is_union_tree (env : Validate.Env) (k : Raw.Consts) (t : RawTree) (excl : List Str)
+    (sfx : Str) (cfw : Bool) (g : Group SJson) (hload : load t.listing excl sfx = .ok g) :
+    validateDatasetClosedRaw env k t excl [sfx] cfw =
+      match validateGroupClosedRaw env k t.table g with
+      | .error e => .error (.validation e)
+      | .ok l => .ok (filterSev cfw l) := by
+  unfold validateDatasetClosedRaw validateDatasetClosed validateGroupClosedRaw
+  simp only [loadAll, hload, List.map_cons, List.map_nil, seqE_single]
+  rfl
+
+/-- **dataset_closed_raw_total.**  On every tree whose participating file names parse, with the repaired file layer,
+raw closed dataset validation returns a list of issues — whatever the sidecars' JSON, the tables' cells, headers and
+onsets, the schema environment and the inheritance pattern. -/
+theorem dataset_closed_raw_total (env : Validate.Env) (k : Raw.Consts) (t : RawTree) (excl types : List Str)
+    (cfw : Bool) (gs : List (Group SJson)) (hparse : loadAll t.listing excl types = .ok gs)
+    (hm : k.maskByRow = true) (hg : k.guardDelay = true) :
+    ∃ l, validateDatasetClosedRaw env k t excl types cfw = .ok l :=
+  dataset_closed_total env k.kBanned (rawFrames k t.table) t.listing excl types cfw gs hparse
+    (fun _ _ => ⟨hm, hg⟩)
+
+/-- **excluded_files_silent_raw.** -/
+theorem excluded_files_silent_raw (env : Validate.Env) (k : Raw.Consts) (tables : Path → Assemble.Table)
+    (D : Dir SJson) (excl : List Str) (sfx : Str) (g : Group SJson) (l : List DIssue)
+    (hload : load D.listing excl sfx = .ok g) (h : validateGroupClosedRaw env k tables g = .ok l) :
+    ∀ i ∈ l, (∃ e ∈ D.listing, e.1 = i.file) ∧ participates excl i.file ∧
+      (checkName (i.file.getLastD []) sfx jsonExt = true ∨ checkName (i.file.getLastD []) sfx tsvExt = true) :=
+  excluded_files_silent env k.kBanned (rawFrames k tables) D excl sfx g l hload h
+
+/-- **file_judged_with_merged_sidecar_closed_raw** (frame property, every tree, no frame input).  Edit the sidecars of
+a group in any way that keeps their names and leaves the chain of `o` untouched, and edit the tables of all *other*
+events files in any way: `o` has the same chain, the same merged sidecar, the same file issues and the same sidecar
+issues. -/
+theorem file_judged_with_merged_sidecar_closed_raw (env : Validate.Env) (k : Raw.Consts)
+    (tables tables' : Path → Assemble.Table) (g : Group SJson) (o : PFile SJson) (f : PFile SJson → PFile SJson)
+    (hm : ∀ s, (f s).path = s.path ∧ (f s).suffix = s.suffix ∧ (f s).ents = s.ents)
+    (hfix : ∀ s ∈ chain g o, f s = s) (hown : tables' o.path = tables o.path) :
+    mergeImpl ⟨g.sidecars.map f, g.datafiles⟩ o = mergeImpl g o ∧
+    tableClosed env k.kBanned (rawFrames k tables') ⟨g.sidecars.map f, g.datafiles⟩ o =
+      tableClosed env k.kBanned (rawFrames k tables) g o ∧
+    sidecarClosed env ⟨g.sidecars.map f, g.datafiles⟩ o = sidecarClosed env g o := by
+  obtain ⟨_, h2, h3, h4⟩ := file_judged_with_merged_sidecar_closed env k.kBanned (rawFrames k tables') g o f hm hfix
+  refine ⟨h2, ?_, h4⟩
+  rw [h3]
+  unfold tableClosed rawFrames
+  rw [hown]
+
+/-- reading a file: a cell is either kept as text or becomes `"n/a"`; reading twice changes nothing; the header
+is not touched -/
+theorem readCell_spec (c : Str) :
+    (readCell c = c ∨ readCell c = Assemble.NA) ∧ readCell (readCell c) = readCell c ∧
+    (readCell c ≠ c → c ∈ Generated.C16.fileNaValues) := by
+  have hna : readCell Assemble.NA = Assemble.NA := by decide
+  by_cases h : Generated.C16.fileNaValues.contains c = true
+  · have hc : readCell c = Assemble.NA := by unfold readCell; rw [if_pos h]
+    refine ⟨Or.inr hc, by rw [hc, hna], fun _ => by simpa using h⟩
+  · have hc : readCell c = c := by unfold readCell; rw [if_neg h]
+    exact ⟨Or.inl hc, by rw [hc, hc], fun hne => absurd hc hne⟩
+
+theorem readTable_header (tb : Assemble.Table) : (readTable tb).header = tb.header := rfl
+
+section ExampleRaw
+private def evJson' : Str := ['_','e','v','e','n','t','s','.','j','s','o','n']
+private def evTsv' : Str := ['_','e','v','e','n','t','s','.','t','s','v']
+private def sub' (n : Char) : Str := ['s','u','b','-','0', n]
+private def taskA' : Str := ['t','a','s','k','-','A']
+private def entry' (s : Str) : SJson := .obj [(SidecarV.HED, .obj [(['x'], .str s)])]
+
+def exConsts : Raw.Consts :=
+  ⟨true, true, ⟨['K'], 10⟩, ⟨['F'], 1⟩, ⟨['U'], 10⟩, ⟨['N'], 10⟩, ⟨['B'], 1⟩, fun _ => ⟨['T'], 1⟩⟩
+
+/-- the two-subject dataset with its raw events tables: column `a` holds the key `x` in both files; subject 2's file
+also has a column `extra` that no sidecar describes -/
+def exRawDataset : RawTree :=
+  [ ([['e','v','e','n','t','s','.','j','s','o','n']], .json (some [(['a'], entry' ['R','e','d'])])),
+    ([sub' '1', sub' '1' ++ evJson'], .json (some [(['a'], entry' ['Z','z'])])),
+    ([sub' '1', sub' '1' ++ '_' :: taskA' ++ evTsv'], .tsv ⟨[['a']], [[['x']]]⟩),
+    ([sub' '2', sub' '2' ++ '_' :: taskA' ++ evTsv'], .tsv ⟨[['a'], ['e','x','t','r','a']], [[['x'], ['q']]]⟩) ]
+
+/-- **two-subject example, raw** (`decide +kernel`): from the JSON and the raw cells alone.  Subject 1 is judged with
+the overriding sidecar (unknown tag `Zz` in its sidecar and, through the categorical column `a`, in row 2 of its
+events file); subject 2 inherits the root sidecar only: its one issue is the warning for the column `extra` that no
+sidecar describes, which disappears without `check_for_warnings`. -/
+theorem two_subject_example_closed_raw :
+    (validateDatasetClosedRaw C01.Tiny.env exConsts exRawDataset [] [['e','v','e','n','t','s']] true).toOption =
+    some [ .sidecar [sub' '1', sub' '1' ++ evJson'] ⟨[], Validate.Kind.noValidTag.code, 1, some ['a'], none⟩,
+           .table [sub' '1', sub' '1' ++ '_' :: taskA' ++ evTsv']
+             ⟨C07.kindOf .noValidTag, 1, some 2, some ['a'], ['Z','z'], .cell 0 0⟩,
+           .table [sub' '2', sub' '2' ++ '_' :: taskA' ++ evTsv'] ⟨['N'], 10, none, none, [], .mapping⟩ ] ∧
+    ((validateDatasetClosedRaw C01.Tiny.env exConsts exRawDataset [] [['e','v','e','n','t','s']] false).toOption.map
+      List.length) = some 2 := by
+  decide +kernel
+end ExampleRaw
 
 end HedVerif.C16
